@@ -18,6 +18,7 @@ import collections
 from model import strip, dstr, const_value, walk
 
 CAP = 2
+ALL_BYTES = frozenset(range(256))
 Pos = collections.namedtuple('Pos', 'lo ge lt npos cs')
 UNKNOWN = Pos(None, False, False, 'm', None)
 NPOS_VALUES = (-1, 2 ** 64 - 1, 2 ** 32 - 1)
@@ -45,6 +46,8 @@ class LoopProgress(object):
         self.subject = subject              # dstr of S (the string / buffer), may be None
         self.undecided = []
         self.notes = []
+        self.sentinel = bound_key is None      # the loop ends at a NUL byte: stepping over a possible NUL is an over-read
+        self.overreads = {}
         self.states_seen = 0
         self.loop = self._natural_loop()
 
@@ -169,6 +172,11 @@ class LoopProgress(object):
             out = []
             for st in states:
                 if op == '=':
+                    if self.sentinel and n == self.v:
+                        r0 = strip(ev.get('r'))
+                        if isinstance(r0, dict) and r0.get('k') == 'bin' and r0['op'] == '+' and (const_value(r0['r']) or 0) > 0:
+                            for bp in self.eval(r0['l'], st):
+                                self._step_over(ev, bp)
                     for p in self.eval(ev.get('r'), st):
                         s2 = dict(st)
                         s2[n] = p
@@ -176,6 +184,8 @@ class LoopProgress(object):
                     continue
                 p = st.get(n, UNKNOWN)
                 s2 = dict(st)
+                if self.sentinel and n == self.v and op in ('++', '+='):
+                    self._step_over(ev, p)
                 if op == '++':
                     s2[n] = Pos(_cap(p.lo + 1) if p.lo is not None else None, p.ge and p.npos == 'n', False,
                                 'n' if p.npos == 'n' else 'm', None)
@@ -219,6 +229,14 @@ class LoopProgress(object):
                 return out
         return states
 
+    def _step_over(self, ev, p):
+        """v is advanced past the byte it points at: that byte must be known not to be the NUL."""
+        if p.npos in ('y', 'z'):
+            return
+        if p.cs is None or 0 in p.cs:
+            self.overreads[ev.get('line')] = 'the byte stepped over at line %s may be the terminating NUL (%s)' % (
+                ev.get('line'), 'not examined on this path' if p.cs is None else 'value set contains 0')
+
     # ---- refinement by a branch fact --------------------------------------------------------------
     def char_index(self, d):
         """variable x if d is S[x] / *x / x[0]."""
@@ -256,6 +274,9 @@ class LoopProgress(object):
                     return None
                 st[n] = Pos(None, False, False, 'z', None)
             return st
+        ci0 = self.char_index(a) if isinstance(a, dict) and a.get('k') != 'bin' else None
+        if ci0 is not None:
+            a = {'k': 'bin', 'op': '!=', 'l': a, 'r': {'k': 'int', 'v': 0}}
         if not (isinstance(a, dict) and a.get('k') == 'bin'):
             return st
         op, l, r = a['op'], a['l'], a['r']
@@ -301,8 +322,8 @@ class LoopProgress(object):
                         if p.cs is not None and cv not in p.cs:
                             return None
                         st[ci] = p._replace(cs=frozenset([cv]))
-                    elif p.cs is not None:
-                        cs = p.cs - {cv}
+                    else:
+                        cs = (p.cs if p.cs is not None else ALL_BYTES) - {cv}
                         if not cs:
                             return None
                         st[ci] = p._replace(cs=cs)
@@ -381,6 +402,8 @@ class LoopProgress(object):
         back = self.run()
         if back is None:
             return 'undecided', 'state budget exhausted'
+        if self.overreads:
+            return 'overread', '; '.join(self.overreads[k] for k in sorted(self.overreads, key=str))
         if not back:
             return 'progress', 'no path returns to the loop head'
         verdict = 'progress'
